@@ -21,7 +21,7 @@ pub enum Q { All, Sel(u64), Cat(i64) }
 
 impl Q {
     fn matches(&self, d: &MDoc) -> bool {
-        match self { Q::All => true, Q::Sel(v) => d[Fd::Sel.id()].contains(&(*v as i64)), Q::Cat(c) => d[Fd::Cat.id()].contains(c) }
+        !is_deleted(d) && match self { Q::All => true, Q::Sel(v) => d[Fd::Sel.id()].contains(&(*v as i64)), Q::Cat(c) => d[Fd::Cat.id()].contains(c) }
     }
     fn build(&self, schema: &Schema) -> Box<dyn Query> {
         match self {
@@ -59,6 +59,10 @@ pub fn build_index(docs: &[MDoc], parts: &[Vec<usize>]) -> Index {
             let d = TantivyDocument::parse_json(&schema, &doc_to_json(&docs[i]).to_string()).unwrap();
             w.add_document(d).unwrap();
         }
+        w.commit().unwrap();
+    }
+    if docs.iter().any(is_deleted) {
+        w.delete_term(Term::from_field_u64(schema.get_field("sel").unwrap(), DELETED as u64));
         w.commit().unwrap();
     }
     drop(w);
@@ -150,7 +154,7 @@ fn may_truncate(nodes: &[Node], docs: &[MDoc], parts: &[Vec<usize>], q: Q, out: 
 }
 
 fn has_count_ordered_terms(nodes: &[Node]) -> bool {
-    nodes.iter().any(|n| matches!(&n.agg, Agg::Terms { order, .. } if matches!(order, None | Some(TOrd::CountDesc) | Some(TOrd::CountAsc))) || has_count_ordered_terms(&n.subs))
+    nodes.iter().any(|n| matches!(&n.agg, Agg::Terms { order, .. } if n.opt.sub_order.is_some() || matches!(order, None | Some(TOrd::CountDesc) | Some(TOrd::CountAsc))) || has_count_ordered_terms(&n.subs))
 }
 
 pub struct Corpus {
@@ -207,6 +211,10 @@ fn case_json(c: &CaseIn, parts: &[Vec<usize>], what: &str) -> Value {
 
 /// oracle (a) on one real result; returns the canonical result when it could be canonicalised
 fn judge_real(ctx: &mut Ctx, c: &CaseIn, parts: &[Vec<usize>], out: &Out, specs: &Specs, how: &str) -> Option<Vec<CR>> {
+    if parts.iter().any(|p| !p.is_empty() && p.iter().all(|&i| is_deleted(&c.docs[i]))) {
+        ctx.report.count("skipped:segment-with-only-deleted-documents");
+        return None;
+    }
     let no_segments = parts.iter().all(|p| p.is_empty());
     let srs = if no_segments { &specs.absent } else { &specs.base };
     let v = match out {
@@ -322,7 +330,7 @@ fn any_metric_missing_signature(nodes: &[Node], docs: &[MDoc], parts: &[Vec<usiz
 
 fn no_count_cut(srs: &[SR]) -> bool {
     srs.iter().all(|s| match s {
-        SR::Terms { all, size, order, .. } => (!matches!(order, TOrd::CountDesc | TOrd::CountAsc) || all.len() <= *size) && all.iter().all(|b| no_count_cut(&b.2)),
+        SR::Terms { all, size, order, subkey, .. } => ((subkey.is_none() && !matches!(order, TOrd::CountDesc | TOrd::CountAsc)) || all.len() <= *size) && all.iter().all(|b| no_count_cut(&b.2)),
         SR::List(bs, _) => bs.iter().all(|b| no_count_cut(&b.2)),
         SR::Filter(_, s) => no_count_cut(s),
         _ => true,
@@ -483,6 +491,10 @@ fn count_kinds(ctx: &mut Ctx, nodes: &[Node]) {
             Agg::Filter { field, .. } => format!("agg:filter:{}", field.name()),
         };
         ctx.report.count(&k);
+        if n.opt.keyed && matches!(n.agg, Agg::Hist { .. } | Agg::Range { .. }) { ctx.report.count("opt:keyed"); }
+        if n.opt.include.is_some() { ctx.report.count("opt:terms-include"); }
+        if n.opt.exclude.is_some() { ctx.report.count("opt:terms-exclude"); }
+        if n.opt.sub_order.is_some() { ctx.report.count("opt:terms-order-by-sub-aggregation"); }
         count_kinds(ctx, &n.subs);
     }
 }
@@ -604,6 +616,16 @@ fn smaller_requests(nodes: &[Node]) -> Vec<Vec<Node>> {
     out
 }
 
+/// drop an order-by-sub-aggregation whose target is no longer a child
+fn sanitize(nodes: &mut [Node]) {
+    for n in nodes.iter_mut() {
+        if let Some((name, _, _)) = &n.opt.sub_order {
+            if !n.subs.iter().any(|c| &c.name == name) { n.opt.sub_order = None; }
+        }
+        sanitize(&mut n.subs);
+    }
+}
+
 /// delta debugging over documents, values and request nodes, keeping a violation with `key`
 fn shrink(ctx: &mut Ctx, case: &Value, key: &str) -> Option<(Value, String)> {
     let mut docs: Vec<MDoc> = serde_json::from_value(case["docs"].clone()).ok()?;
@@ -616,7 +638,8 @@ fn shrink(ctx: &mut Ctx, case: &Value, key: &str) -> Option<(Value, String)> {
     let mut progress = true;
     while progress && trials < 400 {
         progress = false;
-        for cand in smaller_requests(&nodes) {
+        for mut cand in smaller_requests(&nodes) {
+            sanitize(&mut cand);
             trials += 1;
             if let Some(v) = run_case(ctx, &docs, &cand, q, &parts, limits).into_iter().find(|v| v.key == key) { nodes = cand; what = v.what; progress = true; break; }
         }
@@ -697,7 +720,7 @@ fn probe_tophits_flush(ctx: &mut Ctx) {
         docs.push(d);
     }
     let nodes = vec![Node { name: "a1".into(), agg: Agg::Hist { field: Fd::U, interval: 10, offset: None, mdc: Some(1), hard: None, ext: None, date_hist: false },
-        subs: vec![Node { name: "a2".into(), agg: Agg::Metric { kind: MK::TopHits, field: Fd::Uid, missing: None, desc: true, k: 1 }, subs: vec![] }] }];
+        subs: vec![Node { name: "a2".into(), agg: Agg::Metric { kind: MK::TopHits, field: Fd::Uid, missing: None, desc: true, k: 1 }, subs: vec![], opt: Opt::default() }], opt: Opt::default() }];
     let all: Vec<usize> = (0..docs.len()).collect();
     let halves = vec![(0..1000).collect::<Vec<usize>>(), (1000..2100).collect()];
     let segs = vec![(vec![all.clone()], build_index(&docs, &[all.clone()])), (halves.clone(), build_index(&docs, &halves))];
@@ -767,6 +790,7 @@ pub fn run(ctx: &mut Ctx) {
         ctx.report.count(&format!("corpus:kw-cardinality:{}", prof.kw_card));
         ctx.report.count(&format!("corpus:multi-valued-p{}", prof.multi));
         ctx.report.count(&format!("corpus:missing-p{}", prof.missing));
+        ctx.report.count(if prof.deleted > 0 { "corpus:with-deleted-documents" } else { "corpus:no-deletes" });
         let nseg = 1 + (ci as usize % 6).max(1).min(if ctx.thorough() { 6 } else { 4 });
         let corpus = build_corpus(&mut rng, docs, nseg);
         for ri in 0..reqs_per {
